@@ -6,7 +6,8 @@ from the file (partitura/io/exportmidi.py, partitura/io/importmidi.py), assemble
 The model mirrors the code with the proposed repairs applied:
   C04-1 `to_ppq` rounds instead of truncating,          C04-2 note ons carry the `velocity` argument,
   C04-4 `time_sig_change` keeps the score's signatures,  C04-5 offs / zero-duration notes / ons order,
-  C04-6 import mode 1 keys parts by (track, channel),    C04-7 a part without notes has no track.
+  C04-6 import mode 1 keys parts by (track, channel),    C04-7 a part without notes has no track,
+  C04-8 whole beat counts are compared exactly,          C04-9 a fractional beat count halves the beat.
 
 Python dicts are association lists in insertion order (`dictSet` overwrites in place,
 `dictAppend` appends to the list stored under a key).  Nothing outside Lean core.
@@ -77,6 +78,12 @@ abbrev MetaDict := List (Int × List Msg)
 /-- `int(x)` for a non-negative float -/
 def truncInt (x : Rat) : Int := if 0 ≤ x then x.floor else x.ceil
 
+/-- `while m_beats != int(m_beats) and m_beat_type < 128: double both` (fix C04-9); the beat type at
+    least doubles to 128 within 8 steps when it is positive -/
+def refineBeats : Nat → Rat → Nat → Rat × Nat
+  | 0, x, bt => (x, bt)
+  | fuel + 1, x, bt => if x.den ≠ 1 ∧ bt < 128 then refineBeats fuel (2 * x) (2 * bt) else (x, bt)
+
 /-- the measure loop of the `time_sig_change` branch (fix C04-4); returns the dict and the
     starts of the irregular measures; `none`: NaN time signature -/
 def tscMeasures (b : TimeBase) (tk : Nat → Int) (tsTimes : List Nat) :
@@ -88,7 +95,8 @@ def tscMeasures (b : TimeBase) (tk : Nat → Int) (tsTimes : List Nat) :
     | some (beats, bt) =>
       let dur := beatDur b s e
       if dur ≠ (beats : Rat) then
-        let d1 := dictAppend d (tk s) (.timeSig (truncInt dur) bt)
+        let (nb, nbt) := refineBeats 8 dur bt
+        let d1 := dictAppend d (tk s) (.timeSig (truncInt nb) nbt)
         let d2 := if tsTimes.contains e then d1 else dictAppend d1 (tk e) (.timeSig beats bt)
         tscMeasures b tk tsTimes rest d2 (irr ++ [s])
       else tscMeasures b tk tsTimes rest d irr
